@@ -143,6 +143,24 @@ def _formula(e: ast.AST):
         return (kind, tuple(_formula(v) for v in e.values))
     if isinstance(e, ast.UnaryOp) and isinstance(e.op, ast.Not):
         return ("not", _formula(e.operand))
+    if isinstance(e, ast.Compare) and len(e.ops) == 1:
+        # lift a conditional expression out of a comparison: a < (x if c else y)
+        l, r = e.left, e.comparators[0]
+        for side, other_first in ((l, False), (r, True)):
+            if isinstance(side, ast.IfExp):
+                def mk(v, side=side, other_first=other_first):
+                    return ast.Compare(left=l if other_first else v, ops=e.ops,
+                                       comparators=[v if other_first else r])
+                c = _formula(side.test)
+                return ("or", (("and", (c, _formula(mk(side.body)))),
+                               ("and", (("not", c), _formula(mk(side.orelse))))))
+        ln, rn = _const_num(l), _const_num(r)
+        if ln is not None and rn is not None:
+            op = type(e.ops[0])
+            table = {ast.Eq: ln == rn, ast.NotEq: ln != rn, ast.Lt: ln < rn, ast.LtE: ln <= rn,
+                     ast.Gt: ln > rn, ast.GtE: ln >= rn}
+            if op in table:
+                return ("const", table[op])
     if isinstance(e, ast.Compare):
         parts = []
         left = e.left
@@ -255,7 +273,7 @@ def show(f) -> str:
 
 
 def names_in(expr_or_text) -> set[str]:
-    """Root names read by an expression (given as AST or canonical text)."""
+    """What an expression reads: root names plus every dotted attribute path (``a``, ``a.b``, ``a.b.c``)."""
     if isinstance(expr_or_text, str):
         src = expr_or_text
         if src.startswith("empty(") and src.endswith(")"):
@@ -264,7 +282,20 @@ def names_in(expr_or_text) -> set[str]:
             expr_or_text = ast.parse(src, mode="eval")
         except SyntaxError:
             return set()
-    return {n.id for n in ast.walk(expr_or_text) if isinstance(n, ast.Name)}
+    out: set[str] = set()
+    for n in ast.walk(expr_or_text):
+        if isinstance(n, ast.Name):
+            out.add(n.id)
+        elif isinstance(n, ast.Attribute):
+            parts = []
+            cur = n
+            while isinstance(cur, ast.Attribute):
+                parts.append(cur.attr)
+                cur = cur.value
+            if isinstance(cur, ast.Name):
+                parts.append(cur.id)
+                out.add(".".join(reversed(parts)))
+    return out
 
 
 def formula_names(f) -> set[str]:
@@ -272,6 +303,25 @@ def formula_names(f) -> set[str]:
     for a in atoms_of(f):
         out |= names_in(a)
     return out
+
+
+def _mutated_token(t: ast.AST, receiver: bool = False) -> str:
+    """Token for an in-place mutation: ``x.a = v`` -> "x.a"; ``x.a[k] = v`` -> "x.a"; ``x[k] = v`` -> "x";
+    ``x.a.append(v)`` -> "x.a".  Unresolvable receivers give "?"."""
+    while isinstance(t, ast.Subscript):
+        t = t.value
+    parts = []
+    cur = t
+    while isinstance(cur, (ast.Attribute, ast.Subscript)):
+        if isinstance(cur, ast.Attribute):
+            parts.append(cur.attr)
+        else:
+            parts = []
+        cur = cur.value
+    if isinstance(cur, ast.Name):
+        parts.append(cur.id)
+        return ".".join(reversed(parts))
+    return "?"
 
 
 def assigned_names(node: ast.AST) -> set[str]:
@@ -287,12 +337,8 @@ def assigned_names(node: ast.AST) -> set[str]:
         elif isinstance(t, ast.Starred):
             target(t.value)
         elif isinstance(t, (ast.Subscript, ast.Attribute)):
-            # in-place mutation of the root object
-            root = t
-            while isinstance(root, (ast.Subscript, ast.Attribute)):
-                root = root.value
-            if isinstance(root, ast.Name):
-                out.add(root.id)
+            # in-place mutation: of the attribute path stored to, or of the subscripted object
+            out.add(_mutated_token(t))
 
     def rec(n: ast.AST) -> None:
         if isinstance(n, (ast.FunctionDef, ast.AsyncFunctionDef, ast.ClassDef)):
@@ -322,11 +368,7 @@ def assigned_names(node: ast.AST) -> set[str]:
             for a in n.names:
                 out.add((a.asname or a.name).split(".")[0])
         elif isinstance(n, ast.Call) and isinstance(n.func, ast.Attribute) and n.func.attr in MUTATORS:
-            root = n.func.value
-            while isinstance(root, (ast.Subscript, ast.Attribute)):
-                root = root.value
-            if isinstance(root, ast.Name):
-                out.add(root.id)
+            out.add(_mutated_token(n.func.value, receiver=True))
         for c in ast.iter_child_nodes(n):
             rec(c)
 
